@@ -318,6 +318,10 @@ type Type struct {
 	Type            []*Type    `yang:"type"` // len > 1 only when Name is "union"
 
 	YangType *YangType
+
+	// resolveErrs holds the errors found while YangType was built. A type
+	// that was resolved with errors is resolved again when asked.
+	resolveErrs []error
 }
 
 func (Type) Kind() string             { return "type" }
